@@ -86,6 +86,8 @@ def main():
     items = []
     if what in ("neutral", "all"):
         items += [("neutral", f, None) for f in sorted(glob.glob(os.path.join(V, "selftest/neutral/*.diff")))]
+        # behaviour-preserving refactorings written by independent sub-agents (selftest/neutral_agents/NA_<prop>_<n>.diff)
+        items += [("neutral", f, None) for f in sorted(glob.glob(os.path.join(V, "selftest/neutral_agents/*.diff")))]
     if what in ("mutants", "all"):
         for f in sorted(glob.glob(os.path.join(V, "selftest/mutants/*.diff"))):
             exp = json.load(open(f[:-5] + ".json"))
